@@ -65,7 +65,7 @@ func newStoreConc(variant int) *storeConc {
 	sc.issuers = []pkix.RDNSequence{rdn("Issuer A", "Org"), rdn("Issuer B ÄÖ 日本", "Org, with = comma")}
 	wide, _ := new(big.Int).SetString("00f1e2d3c4b5a69788796a5b4c3d2e1f00112233", 16) // 20 bytes, leading 00 stripped => 19.x bytes, high bit set
 	wide20, _ := new(big.Int).SetString("7fe2d3c4b5a69788796a5b4c3d2e1f0011223344", 16)
-	switch variant % 5 {
+	switch variant % 6 {
 	case 0:
 		sc.describe = "same issuer, adjacent serials; sibling issuer same serial"
 		sc.setKey("k1", 0, big.NewInt(7))
@@ -86,6 +86,11 @@ func newStoreConc(variant int) *storeConc {
 		sc.setKey("k1", 0, big.NewInt(1))
 		sc.setKey("k2", 0, big.NewInt(12))
 		sc.setKey("k3", 0, big.NewInt(123))
+	case 5:
+		sc.describe = "sign variants: 5 / -5 under one issuer, 5 under another"
+		sc.setKey("k1", 0, big.NewInt(5))
+		sc.setKey("k2", 0, big.NewInt(-5))
+		sc.setKey("k3", 1, big.NewInt(5))
 	case 4:
 		sc.describe = "serial 0, 255/256 boundary"
 		sc.setKey("k1", 0, big.NewInt(0))
